@@ -14,9 +14,8 @@
 (*                    binding A); handle_repeat below uses this one, so a   *)
 (*                    defect of the collection shows in the model runs.     *)
 (* KrTableDiff lists where the two differ (checked by TLC per instance).    *)
-(* Not modelled here: chords v2 outputs (add_chordsv2_output_for_key_pos)   *)
-(* and the sequence-mode early return (sequence state is not part of the    *)
-(* L1 state; both are exercised through recorded traces, binding C).        *)
+(* Not modelled here: the sequence-mode early return of handle_repeat        *)
+(* (exercised through recorded traces, binding C).                          *)
 (***************************************************************************)
 EXTENDS Layout, Overrides
 
@@ -67,7 +66,21 @@ KrCollectSeq(outs, aids, slot) ==
 
 \* src: key_outputs.rs:9-40 create_key_outputs, one entry (an absent entry = the empty list: an entry
 \* is only created by add_kc_output)
-KrOutputs(l, slot) == KrCollect(<<>>, LayerAct(l, 0, slot), slot)
+\* src: key_outputs.rs:44-62 add_chordsv2_output_for_key_pos: the chords v2 the key position takes part in, in the
+\* parser's per-key order (Opts.chv2ko), skipping (not stopping at) a chord that is disabled on the layer
+RECURSIVE KrChv2(_, _, _, _)
+KrChv2(outs, kss, l, slot) ==
+  IF kss = <<>> THEN outs
+  ELSE LET I == {i \in DOMAIN Opts.chv2 : Opts.chv2[i].ks = Head(kss)}
+           c == Opts.chv2[CHOOSE i \in I : TRUE]
+       IN IF I = {} THEN KrChv2(outs, Tail(kss), l, slot)
+          ELSE IF Contains(c.dis, l)
+          THEN (IF Bug = "kr_chv2_stop_at_disabled" THEN outs ELSE KrChv2(outs, Tail(kss), l, slot))
+          ELSE KrChv2(KrCollect(outs, c.ac, slot), Tail(kss), l, slot)
+KrChv2Keys(slot) ==
+  IF "chv2" \in DOMAIN Opts /\ "chv2ko" \in DOMAIN Opts /\ slot \in DOMAIN Opts.chv2ko.intmap
+  THEN Opts.chv2ko.intmap[slot] ELSE <<>>
+KrOutputs(l, slot) == KrChv2(KrCollect(<<>>, LayerAct(l, 0, slot), slot), KrChv2Keys(slot), l, slot)
 
 \* the table built by the real parser (dump: key_outputs), restricted to the instance universe
 KrHasDump == "key_outputs" \in DOMAIN Opts
